@@ -98,7 +98,9 @@ def main():
         # ... and (both tiers, universe A only) the smallest histories in which a next
         # hop's reference count goes up twice and down to zero: two routes through one
         # next hop, both withdrawn, one resolution, any order
-        five = sorted(set(itertools.permutations("NNDDR")))
+        # (both new routes before both deletions, the notification anywhere: 5 orders;
+        # their first TWO events are concrete per process)
+        five = [tuple("NNDD"[:k]) + ("R",) + tuple("NNDD"[k:]) for k in range(5)]
         for universe in ("A", "B"):
             for kinds in seqs + (five if universe == "A" else []):
                 length = len(kinds)
@@ -109,9 +111,14 @@ def main():
                 firsts = [(p, h, i) for p in range(np_) for h in range(nh) for i in range(ni)]
                 if kinds[0] in "RK":
                     firsts = [(0, h, 0) for h in range(nh)]
+                if length >= 5:
+                    seconds = [(p, h, i) for p in range(np_) for h in range(nh) for i in range(ni)]
+                    if kinds[1] in "RK":
+                        seconds = [(0, h, 0) for h in range(nh)]
+                    firsts = [f + g for f in firsts for g in seconds]
                 for first in firsts:
                     src = gen.gen_one(length, universe, kinds, first)
-                    path = os.path.join(tmp, "%s_%d%d%d.py" % (name, first[0], first[1], first[2]))
+                    path = os.path.join(tmp, "%s_%s.py" % (name, "".join(str(x) for x in first)))
                     open(path, "w").write(src)
                     jobs.append((path, name, per_cond, first))
         results = []
@@ -149,7 +156,7 @@ def main():
                 rec["known_finding"] = kf[0]["what"]
                 violations.append(rec)
                 continue
-            path = os.path.join(VERIF, "replays", "C20", "%s-%s_%d%d%d.json" % (tier, func, first[0], first[1], first[2]))
+            path = os.path.join(VERIF, "replays", "C20", "%s-%s_%s.json" % (tier, func, "".join(str(x) for x in first)))
             json.dump({"property": "C20", "function": func, "events": evs, "verdict": verdict}, open(path, "w"))
             rec["replay"] = path
             violations.append(rec)
@@ -182,7 +189,7 @@ def main():
             "exhaustive": not inconclusive and not mismatches,
             "explanation": "states = harness functions (one per sequence of event kinds and universe) for which CrossHair's symbolic execution of the real route_control.py returned 'Confirmed over all paths' (all index values, all paths); transitions = events executed per function x functions; counterexamples are re-run under plain CPython before being reported",
             "functions_encoded": ["conf/route_control.py: RouteController.add_new_route_entry, _add_neighbor, _create_update_module, _create_module_links, add_unresolved_new_neighbor, delete_route_entry, _probe_addr, _get_gate_idx, fetch_mac, validate_ipv4, get_*_module_name, mac_to_int, mac_to_hex"],
-            "bounds": ["%s, universes %s" % ("3 events per sequence, all 27 kind sequences, plus the 12 orders of {new route, new route, delete route, neighbour resolution} and the 12 orders of {new route, kernel resolves (notification pending), new route, notification}, and (universe A) the 30 orders of {new route, new route, delete route, delete route, notification}" if tier == "quick" else "4 events per sequence: all 81 sequences of new/delete/notification plus the 108 with one silent kernel resolution, and (universe A) the 30 orders of {new route, new route, delete route, delete route, notification}", universes),
+            "bounds": ["%s, universes %s" % ("3 events per sequence, all 27 kind sequences, plus the 12 orders of {new route, new route, delete route, neighbour resolution} and the 12 orders of {new route, kernel resolves (notification pending), new route, notification}, and (universe A) the 5 orders of {new route, new route, delete route, delete route} with the notification at any position" if tier == "quick" else "4 events per sequence: all 81 sequences of new/delete/notification plus the 108 with one silent kernel resolution, and (universe A) the 5 orders of {new route, new route, delete route, delete route} with the notification at any position", universes),
                        "events the kernel cannot produce (duplicate RTM_NEWROUTE, RTM_DELROUTE of an absent route, repeated RTM_NEWNEIGH) are skipped"],
             "queries": len(results), "solver": "CrossHair 0.0.x over z3 (python3-vt)", "solver_s": round(sum(r[2] for r in results), 1),
             "functions_confirmed": confirmed, "functions_total": len(results),
